@@ -54,6 +54,10 @@ def init(scratch, tier="quick"):
 
     for name in ("CIDARCassetteVector", "CIDAREntryVector", "CIDARPromoter", "CIDARRibosomeBindingSite", "CIDARCodingSequence", "CIDARTerminator", "CIDARPart", "CIDAREntry"):
         classes["kit:cidar." + name] = getattr(cidar, name)
+    import moclo.kits.ytk as ytk
+
+    for name in ("YTKPart1", "YTKPart2", "YTKPart3", "YTKPart4", "YTKPart5", "YTKPart6", "YTKPart7", "YTKPart8", "YTKPart678", "YTKPart234"):
+        classes["kit:ytk." + name] = getattr(ytk, name)
     W["classes"] = classes
     W["moclo_dir"] = os.path.join(os.path.realpath(scratch), "moclo", "moclo") + os.sep
     W["kit_gb"] = {}
@@ -792,6 +796,8 @@ def execute(case):
                                      "expected": _short(d[1]), "observed": _short(d[2]), "detail": "differs from the first-call-on-fresh-copies reference at %s" % d[0]})
                 rec["reference"] = kernel.digest_of(ref)[:16]
             # --- C10 on every returned product
+            if "product" in out and case.get("scenario", {}).get("kit"):
+                probes["kit-scenario-product:" + str(cat["pool"][0]["id"])] += 1
             if "product" in out:
                 prod = out["product"]
                 if cit:
@@ -826,6 +832,16 @@ def execute(case):
         if k == "assemble":
             prev_kind = this_kind
         log.append(rec)
+    cp = case.get("crash_points")
+    if cp:
+        mode = "boundary" if case.get("spec", {}).get("mode") == "enumerate" else "line"
+        lo, hi = cp["slice"]
+        per = 2 if mode == "boundary" else 1
+        stats["crash_points_enumerated:" + mode] += max(0, hi - lo)
+        if lo == 0:
+            stats["crash_point_scenarios:" + mode] += 1
+            stats["crash_points_possible:" + mode] += cp["possible"]
+            stats["crash_point_scenario_dry_outcome:%s" % cp["dry_outcome"]] += 1
     nontrivial = {
         "C07": bool(stats.get("fault_fired:boundary", 0) + stats.get("fault_fired:line", 0) + probes.get("refinement-after-failure", 0) + probes.get("missing-module", 0)) and bool(probes.get("assemble-with-citations", 0)),
         "C10": probes.get("product-carries-citation", 0) > 0,
@@ -1009,31 +1025,45 @@ def gen_scenario(g, kind=None):
     return {"cutter": cutter, "refs": refs, "pool": pool, "wrappers": wrappers, "chain": ["w:M%d" % i for i in range(n)], "extras": extras, "n": n}
 
 
-CIDAR_SCENARIOS = [
-    ("cidar/DVK_AE", ["cidar/J23102_AB", "cidar/BCD2_BC", "cidar/E1010m_CD", "cidar/B0015_DE"], ["cidar/J23100_AB", "cidar/B0015_DF", "cidar/E0040m_CD"]),
-    ("cidar/DVK_EF", ["cidar/J23102_EB", "cidar/BCD2_BC", "cidar/E1010m_CD", "cidar/B0015_DF"], ["cidar/J23106_EB", "cidar/B0015_DE", "cidar/C0040_CD"]),
-]
-_CIDAR_CLS = {"J": "kit:cidar.CIDARPromoter", "R": "kit:cidar.CIDARPromoter", "I": "kit:cidar.CIDARPromoter", "B": None, "E": "kit:cidar.CIDARCodingSequence", "C": "kit:cidar.CIDARCodingSequence", "D": "kit:cidar.CIDARCassetteVector"}
-
-
 def _cidar_cls(stem):
     s = stem.split("/")[1]
     if s.startswith("BCD") or s.startswith("B003"):
         return "kit:cidar.CIDARRibosomeBindingSite"
     if s.startswith("B0015"):
         return "kit:cidar.CIDARTerminator"
-    return _CIDAR_CLS[s[0]]
+    if s.startswith("DV"):
+        return "kit:cidar.CIDARCassetteVector"
+    if s[0] in "JRI":
+        return "kit:cidar.CIDARPromoter"
+    return "kit:cidar.CIDARCodingSequence"
+
+
+def _c(*stems):
+    return [("cidar/" + s, _cidar_cls("cidar/" + s)) for s in stems]
+
+
+def _y(*pairs):
+    return [("ytk/pYTK%03d" % n, "kit:ytk.YTKPart" + t) for n, t in pairs]
+
+
+# (vector, chain, alternates): real kit plasmids from the registry sources
+KIT_SCENARIOS = [
+    (_c("DVK_AE")[0], _c("J23102_AB", "BCD2_BC", "E1010m_CD", "B0015_DE"), _c("J23100_AB", "B0015_DF", "E0040m_CD")),
+    (_c("DVK_EF")[0], _c("J23102_EB", "BCD2_BC", "E1010m_CD", "B0015_DF"), _c("J23106_EB", "B0015_DE", "C0040_CD")),
+    (_y((83, "8"))[0], _y((2, "1"), (9, "2"), (33, "3"), (51, "4"), (67, "5"), (74, "6"), (81, "7")), _y((3, "1"), (10, "2"), (52, "4"))),
+    (_y((95, "678"))[0], _y((2, "1"), (48, "234"), (67, "5")), _y((9, "2"), (68, "5"))),
+]
 
 
 def gen_kit_scenario(g):
     import Bio.SeqIO
 
-    vec, mods, alts = g.choice(CIDAR_SCENARIOS)
+    (vec, vcls), mods, alts = g.choice(KIT_SCENARIOS)
     n_refs_total = g.randint(1, 4)
     refs = [{"id": "R%d" % i, "title": "Kit literature %d" % i, "authors": "Kit%d K." % i, "shared_object": g.random() < 0.5} for i in range(n_refs_total)]
     pool, wrappers = [], []
     use_alts = [a for a in alts if g.random() < 0.5]
-    for src in [vec] + mods + use_alts:
+    for src, cls in [(vec, vcls)] + mods + use_alts:
         rid = src.split("/")[1]
         nfeat = W.setdefault("kit_nfeat", {})
         if src not in nfeat:
@@ -1047,8 +1077,8 @@ def gen_kit_scenario(g):
             for fi in g.sample(range(nfeat[src]), min(nfeat[src], 3)):
                 cite[str(fi)] = []
         pool.append({"id": rid, "role": "vector" if src == vec else "module", "source": src, "references": rl, "cite": cite})
-        wrappers.append({"h": "w:" + rid, "cls": _cidar_cls(src), "rec": rid})
-    return {"cutter": "BsaI", "refs": refs, "pool": pool, "wrappers": wrappers, "chain": ["w:" + m.split("/")[1] for m in mods], "extras": ["w:" + a.split("/")[1] for a in use_alts], "n": len(mods), "kit": True,
+        wrappers.append({"h": "w:" + rid, "cls": cls, "rec": rid})
+    return {"cutter": "BsaI", "refs": refs, "pool": pool, "wrappers": wrappers, "chain": ["w:" + m.split("/")[1] for m, _ in mods], "extras": ["w:" + a.split("/")[1] for a, _ in use_alts], "n": len(mods), "kit": True,
             "vec": "w:" + vec.split("/")[1]}
 
 
@@ -1121,8 +1151,13 @@ def gen_case(spec):
         else:
             total = dry["lines"]
             points = [(n_, None) for n_ in range(total)]
+            budget = spec.get("budget")
+            if budget and total > budget:
+                # strided sample over the WHOLE extent (all extractions, the vector's included)
+                stride = -(-total // budget)
+                points = points[spec.get("phase", 0) % stride::stride]
         lo, hi = spec.get("slice", [0, 40])
-        case["crash_points"] = {"possible": len(points), "slice": [lo, min(hi, len(points))], "calls": dry["calls"], "lines": dry["lines"], "dry_outcome": dry["outcome"]}
+        case["crash_points"] = {"possible": dry["calls"] * 2 if mode == "enumerate" else dry["lines"], "selected": len(points), "slice": [lo, min(hi, len(points))], "calls": dry["calls"], "lines": dry["lines"], "dry_outcome": dry["outcome"]}
         for j, (k, when) in enumerate(points[lo:hi]):
             c = add(j % 2, dict(call, out_id="prod%d" % (j + 1)))
             exc = EXC_KINDS[(lo + j) % len(EXC_KINDS)]
@@ -1201,7 +1236,11 @@ def plan(tier, verif_seed, scale=1.0):
                 # crash-point count degenerate to clean calls and cost little
                 n_slices = 2 if mode == "enumerate" else (3 if tier == "quick" else 10)
                 for s in range(n_slices):
-                    specs.append({"index": idx, "seed": sd, "mode": mode, "slice": [40 * s, 40 * (s + 1)], "complete": j % 4 != 3})
+                    sp = {"index": idx, "seed": sd, "mode": mode, "slice": [40 * s, 40 * (s + 1)], "complete": j % 4 != 3}
+                    if mode == "lines":
+                        sp["budget"] = 40 * n_slices
+                        sp["phase"] = j
+                    specs.append(sp)
                     idx += 1
                 idx -= 1
             else:
@@ -1272,7 +1311,11 @@ EXPECTED_PROBES = {
 def coverage_extra(prop, stats, probes):
     fired = {k: v for k, v in stats.items() if k.startswith("fault_fired")}
     armed = {k: v for k, v in stats.items() if k.startswith("fault_armed")}
-    return {"faults": {"armed": armed, "fired": fired}, "outcomes": {k[9:]: v for k, v in stats.items() if k.startswith("assemble:")}}
+    cps = {}
+    for mode in ("boundary", "line"):
+        cps[mode] = {"scenarios": stats.get("crash_point_scenarios:" + mode, 0), "possible": stats.get("crash_points_possible:" + mode, 0), "enumerated": stats.get("crash_points_enumerated:" + mode, 0),
+                     "note": "boundary = every call the manager makes into an element x {before, after}, complete per sampled scenario; line = moclo source lines inside target_sequence extents, complete in the thorough tier, first slices only in the quick tier"}
+    return {"faults": {"armed": armed, "fired": fired}, "outcomes": {k[9:]: v for k, v in stats.items() if k.startswith("assemble:")}, "crash_point_coverage": cps}
 
 
 def describe(prop):
